@@ -134,6 +134,10 @@ def declare_forwarder(w):
     s.declare("IO", "$write_closed", BOOL, ghost=True)
     s.declare("IO", "execmodel", REF("ExecModel"))
     s.declare("IO", "remoteaddress", STR)
+    s.declare("IO", "popen", REF("Popen"))          # Popen2IOMaster.popen: the started process (subprocess.Popen)
+    s.set_bases("Popen", ["object"])
+    w.add(Contract("model:Popen.poll", {"self": REF("Popen")}, cases=[Case("ok", restype=OPT(INT))], trusted=True,
+                   note="subprocess.Popen.poll(): None while the process runs, else its status; says nothing about data still queued in its pipes"))
     s.declare("ChannelFileWrite", "$written", BYTES, ghost=True)     # concatenation of everything written through the file
     s.declare("Channel", "$callback", ANY, ghost=True)
     s.declare("Channel", "gateway", REF("BaseGateway"))
